@@ -50,12 +50,14 @@ func (t *brokerPublishTransactionBase) regack(snRegack *snPkts1.Regack, newState
 		t.log.Debug("Unexpected packet in %d: %v", t.State, snRegack)
 		return nil
 	}
+	snRegister := t.Data.(*snPkts1.Register)
 	if snRegack.ReturnCode != snPkts1.RC_ACCEPTED {
+		t.handler.pendingTopics.Delete(snRegister.TopicName)
 		t.Fail(fmt.Errorf("REGACK return code: %d", snRegack.ReturnCode))
 		return nil
 	}
-	snRegister := t.Data.(*snPkts1.Register)
 	t.handler.registeredTopics.Store(snRegister.TopicID, snRegister.TopicName)
+	t.handler.pendingTopics.Delete(snRegister.TopicName)
 	return t.ProceedSN(newState, t.snPublish)
 }
 
